@@ -160,7 +160,7 @@ def h_history(env):
     retained = []  # (object, its own model) left behind by copy / deepcopy / pickle / construct
     first = env.params.get("first")
     for i in range(env.params["steps"]):
-        ops = [first] if (i == 0 and first) else env.params.get("then", OPS)
+        ops = [first] if (i == 0 and first) else (env.params.get("then%d" % i) or env.params.get("then", OPS))
         before, before_model = m, dict(model)
         m, op = apply_op(env, cat, mod, m, model, "s%d." % i, ops)
         if m is not before and op in ("copy", "deepcopy", "pickle"):
@@ -198,16 +198,23 @@ def h_step(env):
     # the observable clause of the property after the operation
     observe_groups(env, cat, mod, m, model, "after-op")
     # representation invariant re-established (what makes one step speak for histories of any length).  It is a device of the argument,
-    # not something the property states: where it fails while the observable clause holds, the step is inconclusive, not violated
+    # not something the property states: where it fails the step proves nothing about longer histories, so one more operation is
+    # applied to that very state and the observable clause is asserted again (only observables are ever reported); if that holds too
+    # the path is left outside the claim
+    intact = True
     for g, members in s.groups().items():
         cur = m._group_current.get(g)
-        env.proof_device("invariant:_group_current-is-a-member-or-None", cur is None or cur in [f.name for f in members])
+        intact = env.proof_device("invariant:_group_current-is-a-member-or-None", cur is None or cur in [f.name for f in members], soft=True) and intact
         for f in members:
             raw = object.__getattribute__(m, f.name)
             if f.name == cur:
-                env.proof_device("invariant:selected-slot-filled", raw is not betterproto.PLACEHOLDER)
+                intact = env.proof_device("invariant:selected-slot-filled", raw is not betterproto.PLACEHOLDER, soft=True) and intact
             else:
-                env.proof_device("invariant:other-slots-are-PLACEHOLDER", raw is betterproto.PLACEHOLDER)
+                intact = env.proof_device("invariant:other-slots-are-PLACEHOLDER", raw is betterproto.PLACEHOLDER, soft=True) and intact
+    if not intact:
+        m, op2 = apply_op(env, cat, mod, m, model, "op2.", ["copy", "deepcopy", "pickle", "set-plain", "parse", "from_dict"])
+        observe_groups(env, cat, mod, m, model, "after-a-second-op")
+        env.cut("proof device does not hold: representation invariant not re-established by %s (observables held after %s as well)" % (op, op2))
 
 
 def h_time_members(env):
@@ -286,6 +293,9 @@ def units(tier):
     for first in ("construct", "set-member", "parse", "from_dict"):
         if first in OPS:
             u.append(("history[2 steps, first=%s | field-less members]" % first, h_history, {"steps": 2, "first": first, "cat": ["s2", "oneofs-nil"]}))
+    # the same, focused: several members to the constructor, then an assignment, then something that rebuilds the message
+    u.append(("history[construct-many, set-member, copy/deepcopy/pickle/from_dict]", h_history,
+              {"steps": 3, "first": "construct-many", "then1": ["set-member"], "then2": ["copy", "deepcopy", "pickle", "from_dict"]}))
     u.append(("history[3 steps, first=construct-many]", h_history, {"steps": 3, "first": "construct-many", "then": ["set-member", "copy", "deepcopy", "pickle", "parse"]}))
     if tier == "thorough":
         u.append(("history[4 steps]", h_history, {"steps": 4}))
